@@ -99,6 +99,35 @@ let mto_model (a : ostring list) : ostring list =
   if r <> m then failwith "extracted MemTimeout and RefTimeout disagree (contradicts Timeouts refinement theorem)";
   r
 
+(* ---------------- launch ---------------- *)
+let launch_cfg (a : ostring list) : config =
+  match a with
+  | [name; dpar; steps; tos; ts; conns; hooks; retry] ->
+    let pairs s f = if s = "-" then [] else List.map f (split ',' s) in
+    { cf_name = unhx name; cf_default_parallel = zi (ios dpar);
+      cf_steps = pairs steps (fun x -> match split ':' x with [s; p] -> (zi (ios s), zi (ios p)) | _ -> failwith "step");
+      cf_timeouts = pairs tos (fun x -> zi (ios x)); cf_has_tstore = (ts = "1");
+      cf_connectors = pairs conns (fun x -> match split ':' x with [n; p] -> (coq_of_string n, zi (ios p)) | _ -> failwith "conn");
+      cf_hooks = pairs hooks (fun x -> rs_of_int (ios x)); cf_retry = (retry = "1") }
+  | _ -> failwith "launch arity"
+let launch_model (a : ostring list) : ostring list =
+  let c = launch_cfg a in
+  let roles = List.sort compare (List.map string_of_coq (launch_roles c)) in
+  string_of_int (List.length roles) :: "1" :: List.map hex_of_string roles
+let launch_monitor (a : ostring list) (obs : ostring list) : ostring option =
+  let m = launch_model a in
+  if m = obs then None
+  else match obs, m with
+    | n :: same :: roles, mn :: _ :: mroles ->
+      if same <> "1" then Some "role names depend on the statuses' display strings"
+      else if List.length (List.sort_uniq compare roles) <> List.length roles then Some "a role was requested twice (process launched more than once)"
+      else if n <> mn || roles <> mroles then
+        Some (Printf.sprintf "Run started %s processes, the configuration asks for %s; missing: [%s] unexpected: [%s]" n mn
+                (String.concat " " (List.map string_of_hex (List.filter (fun r -> not (List.mem r roles)) mroles)))
+                (String.concat " " (List.map string_of_hex (List.filter (fun r -> not (List.mem r mroles)) roles))))
+      else None
+    | _ -> Some "unparsable"
+
 let register (reg : ostring -> (ostring list -> ostring list) -> (ostring list -> ostring list -> ostring option) -> unit) =
   let equal_monitor what model args obs =
     let m = (try model args with Failure e -> ["MODEL-ERROR:" ^ e]) in
@@ -115,4 +144,5 @@ let register (reg : ostring -> (ostring list -> ostring list) -> (ostring list -
   reg "ms" ms_model (equal_monitor "store" ms_model);
   reg "mst" mst_model (equal_monitor "stream" mst_model);
   reg "mco" mco_model (equal_monitor "connector" mco_model);
-  reg "mto" mto_model (equal_monitor "timeout store" mto_model)
+  reg "mto" mto_model (equal_monitor "timeout store" mto_model);
+  reg "launch" launch_model launch_monitor
